@@ -286,7 +286,8 @@ def r4_fixed_file(r, facts):
                                 ok = True
     r.inst('set_flags: %s' % ws, f.where())
     r.require(ok, 'Kind::use_flags', 'set_flags does not OR IOSQE_FIXED_FILE into sqe.flags exactly on the Direct arm: %s' % ws, f.where())
-    s = facts.fn('<SubmissionQueue as io_uring::op::OpTarget>::set_flags')
+    # a queue target sets nothing: its own set_flags, or the trait's provided default when it has none
+    s = facts.fn_opt('<SubmissionQueue as io_uring::op::OpTarget>::set_flags') or facts.fn('io_uring::op::OpTarget::set_flags')
     r.require(not sqe.collect_writes(s, facts, sub_param=2), 'SubmissionQueue::set_flags', 'set_flags of a queue target writes to the submission', s.where())
     # every closure of poll_inner that fills a submission (a second submit site, e.g. a "resubmit straight away" path,
     # included) applies the target's flags afterwards
@@ -461,6 +462,11 @@ def r4b_fd_position(r, facts):
 
 def r5_decoders(r, facts):
     n = 0
+    decoder_paths = set()
+    for tr, meth in (('io_uring::op::Op', 'map_ok'), ('io_uring::op::FdOp', 'map_ok'), ('io_uring::op::FdIter', 'map_next'),
+                     ('io_uring::op::OpExtract', 'map_ok_extract'), ('io_uring::op::FdOpExtract', 'map_ok_extract')):
+        for i, f in facts.impl_fns(tr, meth):
+            decoder_paths.add(f.path)
     for tr, meth in (('io_uring::op::Op', 'map_ok'), ('io_uring::op::FdOp', 'map_ok'), ('io_uring::op::FdIter', 'map_next'),
                      ('io_uring::op::OpExtract', 'map_ok_extract'), ('io_uring::op::FdOpExtract', 'map_ok_extract')):
         for i, f in facts.impl_fns(tr, meth):
@@ -482,6 +488,16 @@ def r5_decoders(r, facts):
                     r.inst('%s: %s(id=%s.., n=%s)' % (i['self'], short, str(ide)[:50], ne), f.where(loc))
                     r.require(okid, 'decoder:%s/%s-id' % (i['self'], short), 'pool buffer id does not come from this completion\'s flags', f.where(loc))
                     r.require(okn, 'decoder:%s/%s-n' % (i['self'], short), 'pool buffer length does not come from this completion\'s result', f.where(loc))
+            # a decoder that hands its completion to a sibling decoder (`RecvOp::map_ok` = `ReadOp::map_ok`) hands over what
+            # it received: the sibling's verdict (set_init from the result) then holds for this one too
+            for loc, t in f.calls():
+                tgt = t.get('resolved') or ''
+                if tgt in decoder_paths and tgt != f.path and not f.blocks[loc[0]]['cleanup']:
+                    from .kernel import not_passed_through
+                    bad = [x_ for x_ in not_passed_through(f, t) if x_[0] > 0]        # (the first argument is the fd / the queue)
+                    n += 1
+                    r.inst('%s delegates to %s' % (i['self'], tgt), f.where(loc))
+                    r.require(not bad, 'decoder:%s/delegation-args' % i['self'], 'the decoder delegated to is handed %s instead of the completion this decoder received: sizes and buffer ids are decoded from something else' % ', '.join('argument %d = %s' % (i_, str(e_)[:60]) for i_, e_ in bad), f.where(loc))
             # ... and on every path: a decoder that initialises its buffer from the completion does so for every result,
             # also for n == 0 (wrappers such as the read_n / recv_n counter learn the size of the transfer from this call:
             # a skipped call leaves the previous size in place)
